@@ -174,6 +174,48 @@ func runC18(c *an.Ctx) {
 		})
 		c.MinCount("R3", "downstream writes in rwInterceptor.Write", nW, 2)
 	}
+	// a response interrupted in a response phase declares an empty body before its status is flushed: the first
+	// Write of a handler that never called WriteHeader runs phase 3 from inside Write, after the interruption test
+	// at the top of Write, and goes on to hand its bytes to the delegate — only the declared Content-Length: 0 makes
+	// net/http refuse them.  Every interruption branch that flushes the status therefore sets it, like its siblings.
+	{
+		nInt := 0
+		for _, fn := range c.P.ModFuncs {
+			if relPkg(fn) != "http" {
+				continue
+			}
+			an.Instrs(fn, func(in ssa.Instruction) {
+				cc := an.CallOf(in)
+				if cc == nil || cc.StaticCallee() == nil || cc.StaticCallee().Name() != "flushWriteHeader" {
+					return
+				}
+				f := an.FactsAt(in)
+				interrupted := false
+				for _, a := range f {
+					if a.Op == "!=" && a.R == "nil" && (strings.Contains(a.L, "ProcessResponseHeaders(") || strings.Contains(a.L, "WriteResponseBody(") || strings.Contains(a.L, "ProcessResponseBody(") || strings.Contains(a.L, "ReadResponseBodyFrom(")) && strings.HasSuffix(a.L, "#0") || a.Op == "!=" && a.R == "nil" && strings.HasSuffix(a.L, "ProcessResponseHeaders(statusCode,i.proto)") {
+						interrupted = true
+					}
+				}
+				if !interrupted {
+					return
+				}
+				nInt++
+				declared := false
+				an.Instrs(fn, func(x ssa.Instruction) {
+					xc := an.CallOf(x)
+					if xc == nil || xc.StaticCallee() == nil || xc.StaticCallee().Name() != "Set" || len(xc.Args) != 3 {
+						return
+					}
+					if an.Expr(xc.Args[1]) == `"Content-Length"` && an.Expr(xc.Args[2]) == `"0"` && (x.Block() == in.Block() || x.Block().Dominates(in.Block())) {
+						declared = true
+					}
+				})
+				c.Check(declared, "R3", fmt.Sprintf("interrupted response #%d in %s declares an empty body before the status is flushed", nInt, shortFn(an.RelName(an.OuterFn(fn)))), in.Pos(), "Header().Set(\"Content-Length\", \"0\") dominates flushWriteHeader",
+					"this interruption branch flushes the status without declaring Content-Length: 0 (its siblings do): when phase 3 denies from inside the handler's first Write, that Write continues and the delegate accepts its bytes, so handler output reaches the client of a blocked response")
+			})
+		}
+		c.MinCount("R3", "interruption branches flushing the response status", nInt, 2)
+	}
 	// call sites of writeBufferedResponseBodyToDownstream
 	if wb != nil {
 		nC := 0
